@@ -94,9 +94,12 @@ def tt_apply_mask(E, s):
     xd = dense(E, xc)
     Mrows = s['rows']
     d = len(s['N'])
-    cols = [E.itensor('i%d_' % k, [Mrows, 1], 0, s['N'][k] - 1) for k in range(d)]
+    lo = (lambda k: -s['N'][k]) if s.get('negative') else (lambda k: 0)
+    cols = [E.itensor('i%d_' % k, [Mrows, 1], lo(k), s['N'][k] - 1) for k in range(d)]
     indices = tn.cat(cols, 1)
+    before = indices.clone()
     r = x.apply_mask(indices)
+    E.eq('index_argument_intact', indices, before)
     vals = []
     for m in range(Mrows):
         v = xd
